@@ -482,6 +482,9 @@ func checkC11(c *Ctx) {
 		}
 	}
 
+	// ---- C11.9 connection handlers range over the set of candidate registrations without a lock: it must be a copy made
+	// under the lock, never the tracking map itself (a map written during iteration aborts the process, unrecoverably)
+	checkLiveLookup(c, "C11.9", "the transports iterate it on every read of every new connection while ingest and the sweep write the same map under the lock: Go aborts the process with 'concurrent map iteration and map write', which no recover catches - first-flight bytes plus a registration for the same phantom take the station down")
 	// ---- C11.5 constant-bound slicing / indexing and allocation sizes on the same reachable set
 	r.Rule("C11.5", "constant-bound slices/indexes of dynamically sized values are dominated by a length test; allocation sizes come from in-memory lengths or are bounded", 10)
 	for _, f := range order {
